@@ -44,8 +44,9 @@ Fixpoint c14_walk (acts : list act) (observed : list obs) (opened gone : list na
 Definition long_bad (smp : Z * Z * Z * Z * Z) : list nat :=
   match smp with
   | (reg, loops, inflight, streams, srv) =>
-      (if (0 <=? reg) && (reg <=? inflight) && (0 <=? loops) && (loops <=? streams) then [] else [4%nat]) ++
-      (if negb (inflight =? 0) || ((reg =? 0) && (loops =? 0)) then [] else [5%nat]) ++
+      (* loops = -1: the goroutine census was not taken at this sample (thorough tier samples it every 4th step) *)
+      (if (0 <=? reg) && (reg <=? inflight) && ((loops =? -1) || ((0 <=? loops) && (loops <=? streams))) then [] else [4%nat]) ++
+      (if negb (inflight =? 0) || ((reg =? 0) && ((loops =? 0) || (loops =? -1))) then [] else [5%nat]) ++
       (* what the SERVER holds for the client's RPCs: nothing once the client has none in flight (the client must have
          told it: trailer, reset) *)
       (if negb (inflight =? 0) || (srv <=? 0) then [] else [6%nat])
@@ -72,3 +73,12 @@ Fixpoint find_bad_from (i : nat) (cs : list c14case) : list (nat * list nat) :=
       | rs => (i, rs) :: find_bad_from (S i) rest
       end
   end.
+
+(* the predicates of the long histories can fail: a registration surviving its RPC, a stream loop surviving, a server
+   registration surviving *)
+Example long_bad_4 : long_bad (3, 1, 2, 1, 0) = [4%nat]. Proof. reflexivity. Qed.
+Example long_bad_4_loops : long_bad (1, 2, 1, 1, 0) = [4%nat]. Proof. reflexivity. Qed.
+Example long_bad_5 : long_bad (1, 0, 0, 0, 0) = [4%nat; 5%nat]. Proof. reflexivity. Qed.
+Example long_bad_5_loop : long_bad (0, 1, 0, 0, 0) = [4%nat; 5%nat]. Proof. reflexivity. Qed.
+Example long_bad_6 : long_bad (0, 0, 0, 0, 1) = [6%nat]. Proof. reflexivity. Qed.
+Example long_ok : long_bad (2, -1, 3, 1, 4) = []. Proof. reflexivity. Qed.
